@@ -38,7 +38,7 @@ class JointDegreeCover(JointDegree):
         indxs = [i for i, top in enumerate(zip(*jds)) if not any(top)]
 
         # use the indexes of the zero columns to remove
-        for i in indxs:
+        for i in reversed(indxs):
             for jd in jds:
                 del jd[i]
 
